@@ -43,7 +43,7 @@ DIRECTED = [("case-insensitive-names", _read("case-insensitive-names.tsh"), "1 2
             ("copy-count-and-length", _read("copy-count-and-length.tsh"), "5\n5\n", False)]
 
 
-SEMB = dict(cases=0, in_scalar_fragment=0, in_theorem_fragment=0, in_conditional_theorem_fragment=0, in_scalar_theorem_fragment=0, tree_defined=0, src32_defined=0, cmd_defined=0, both=0)
+SEMB = dict(cases=0, in_scalar_fragment=0, in_theorem_fragment=0, in_conditional_theorem_fragment=0, in_scalar_theorem_fragment=0, tree_defined=0, lines_defined=0, src32_defined=0, cmd_defined=0, both=0)
 
 
 def straight_programs(rng, n):
@@ -160,10 +160,10 @@ def run(res, b, tier, seed):
         for (c, r), a in zip(semb, answers):
             parts = a.split(" ")
             SEMB["cases"] += 1
-            if parts[0] != "SEMB" or len(parts) != 5:
-                semdis.append((c, "SEMB: " + a[:200], "SEMB <src32> <cmd> <S|C|L|F|N> <tree>"))
+            if parts[0] != "SEMB" or len(parts) != 6:
+                semdis.append((c, "SEMB: " + a[:200], "SEMB <src32> <cmd> <S|C|L|F|N> <tree> <lines>"))
                 continue
-            src32, cmd, flag, tree = parts[1:]
+            src32, cmd, flag, tree, lines = parts[1:]
             if flag == "N":
                 continue
             SEMB["in_scalar_fragment"] += 1
@@ -180,6 +180,18 @@ def run(res, b, tier, seed):
                                    "the line-level machine Sem/Cmd.runPC says " + cmd))
                 if sim is not None and tree != sim:
                     semdis.append((c, "SEMB-TREE: the block tree Sem/CmdTree says " + tree, "lib/cmdsim.py says " + sim))
+            if lines != "U":
+                # the line-level semantics Sem/CmdLines (labels, goto to the first definition, bracket-counting skip of false blocks):
+                # the definition `batch_script_lines_preserve_scalar_semantics` is about, executed by `lrun` (sound for `LRun`)
+                SEMB["lines_defined"] += 1
+                if cmd != "U" and lines != cmd:
+                    semdis.append((c, "SEMB-LINES: the line-level semantics Sem/CmdLines (lrun) says " + lines,
+                                   "the program-counter machine Sem/Cmd.runPC says " + cmd))
+                if sim is not None and lines != sim:
+                    semdis.append((c, "SEMB-LINES: the line-level semantics Sem/CmdLines (lrun) says " + lines, "lib/cmdsim.py says " + sim))
+            if flag in ("S", "C", "L") and src32 != "U" and lines != src32:
+                semdis.append((c, "SEMB-THM: a program of the fragment of batch_script_lines_preserve_scalar_semantics: Sem/Src32 says " + src32,
+                               "the line-level semantics says " + lines))
             if flag in ("S", "C", "L") and src32 != "U" and tree != src32:
                 semdis.append((c, "SEMB-THM: a program of the fragment of batch_preserves_scalar_semantics: Sem/Src32 says " + src32,
                                "the block tree says " + tree))
